@@ -1,6 +1,7 @@
 import GoCrypt.Proofs.CodecShapes
 import GoCrypt.Props.C10General
 import GoCrypt.Props.TiWf
+import GoCrypt.Props.TypeInfoIR
 
 /-!
 # C10 — Marshal / Unmarshal round trip
@@ -401,4 +402,19 @@ example :
 #print axioms GoCrypt.TiWf.typeInfoOf_core
 #print axioms GoCrypt.TiWf.shipped_supported
 #print axioms GoCrypt.TiWf.roundtrip_of_typeInfoOf
+-- the type-info layer IS the current code (Props/TypeInfoIR.lean): getRawTypeInfo (tag-parsing loop, embedded-struct recursion), (*typeInfo).field (with sort.Slice as ANY sorted permutation),
+-- normalize and the cold path of getTypeInfo regenerated from hash/typeinfo.go on every run (records behind pointers, reflect.Type as operations over the struct descriptions) = fieldOpts/rawFields/resolveParam/normalizeLoop/typeInfoOf
+#print axioms GoCrypt.TypeInfoIR.no_unknown_nodes
+#print axioms GoCrypt.TypeInfoIR.indirectType_eq
+#print axioms GoCrypt.TypeInfoIR.tagLoop_eq_fieldOpts
+#print axioms GoCrypt.TypeInfoIR.field_eq_resolveParam
+#print axioms GoCrypt.TypeInfoIR.field_not_stuck_for_sorted_permutations
+#print axioms GoCrypt.TypeInfoIR.merge_sort_is_good
+#print axioms GoCrypt.TypeInfoIR.normalize_eq_normalizeLoop
+#print axioms GoCrypt.TypeInfoIR.normalize_eq_normalizeLoop_exact
+#print axioms GoCrypt.TypeInfoIR.getRawTypeInfo_eq_rawFields
+#print axioms GoCrypt.TypeInfoIR.rawFields_paths_valid
+#print axioms GoCrypt.TypeInfoIR.getTypeInfo_cold_eq_typeInfoOf
+#print axioms GoCrypt.TypeInfoIR.getTypeInfo_cold_eq_typeInfoOf_exact
+#print axioms GoCrypt.TypeInfoIR.example_outer_is_in_the_domain
 end GoCrypt.C10
